@@ -224,7 +224,7 @@ def recipes():
     cand_mis = lambda s: not s.constructing or s.gtype in ("localp", "wavelet")
     add("cand.aw", "getCandidateConstructionPoints#0.t0", RE, cand_mis)
     add("cand.aw-limits", "getCandidateConstructionPoints#0.t0", RE, cand_mis)
-    for n in ["cand.aw-long", "cand.aw-empty", "cand.aw-curved-short", "cand.aw-ll-long"]:
+    for n in ["cand.aw-long", "cand.aw-empty", "cand.aw-curved-short", "cand.aw-curved-short-plain", "cand.aw-curved-short-qp", "cand.aw-level-long2", "cand.aw-ll-long"]:
         add(n, "getCandidateConstructionPoints#0.t1", IA, ALWAYS, lambda s: s.constructing and s.gtype in NONLOCAL)
     add("cand.out", "getCandidateConstructionPoints#1.t0", RE, lambda s: cand_mis(s) or s.outs == 0, cand_mis)
     for n in ["cand.out-high", "cand.out-low", "cand.out-ll-long"]:
